@@ -39,6 +39,7 @@ pub struct Cube {
     pub d: Vec<Vec<(usize, usize, i64)>>,
     pub components: usize,
     pub orientation_ambiguous: bool,
+    pub ambiguous_comps: Vec<usize>,
 }
 
 /// a (x) b in basis {1,X}: 0 = 1, 1 = X.  Returns list of (label of merged circle, coeff).
@@ -60,7 +61,12 @@ fn comult(a: u64, h: i64, t: i64) -> Vec<((u64, u64), i64)> {
 
 impl Cube {
     pub fn new(dg: &Diagram, h: i64, t: i64, reduced: bool, base_edge: Option<Edge>) -> Result<Cube, PdError> {
-        let o = dg.orientation()?;
+        Self::new_oriented(dg, h, t, reduced, base_edge, &[])
+    }
+
+    /// like `new`, with the listed orientation-ambiguous components reversed
+    pub fn new_oriented(dg: &Diagram, h: i64, t: i64, reduced: bool, base_edge: Option<Edge>, flips: &[usize]) -> Result<Cube, PdError> {
+        let o = dg.orientation_flipped(flips)?;
         let n = dg.n_unresolved();
         assert!(n <= 16, "reference cube limited to 16 crossings");
         assert!(!reduced || t == 0, "reduced theory needs t = 0");
@@ -130,7 +136,7 @@ impl Cube {
                 }
             }
         }
-        Ok(Cube { n, n_plus: o.n_plus, n_minus: o.n_minus, reduced, gens, d, components: o.components, orientation_ambiguous: o.ambiguous })
+        Ok(Cube { n, n_plus: o.n_plus, n_minus: o.n_minus, reduced, gens, d, components: o.components, orientation_ambiguous: o.ambiguous, ambiguous_comps: o.ambiguous_comps.clone() })
     }
 
     pub fn h_deg(&self, r: usize) -> i32 {
